@@ -412,7 +412,9 @@ def run(ctx):
                 "0, 1, 2, p-2, p-1, p, p+1, 2p, negatives (incl. those whose encoding starts with the byte 0x80: "
                 "-128, -2^(8n-1) and neighbours for n = the modulus' byte length +-1) and random out-of-range values, "
                 "all written by the harness' own RFC 4251 encoder, minimal and padded; gex client groups of 512..16384 bits, 2^1023-1, 2^1023, 2^8192-1, 2^8192, 0, 1, negatives, "
-                "then f around [1,p-1]; gex server e around [1,p-1] after new/old-style requests; toy and real curve "
+                "and groups that are no safe primes at all (even, 2^k, 2^k-2, squares, multiples of 3*5*7*11, of 6; g in "
+                "{0, 1, 2, 5, -3, p-1, p, p+1}), then f around [1,p-1] of THAT modulus; the engines' real _generate_x runs "
+                "in every scenario (only its result is replaced); gex server e around [1,p-1] after new/old-style requests; toy and real curve "
                 "points (valid, off-curve, other curve, infinity, malformed, low-order, zero secret); honest "
                 "exchanges; malformed/out-of-order packet sequences; end-to-end MITM edits. distinct = distinct "
                 "(engine, role, packets); non-trivial = the case carries an INVALID peer value or group")
